@@ -561,9 +561,18 @@ def orders_for(n, tier):
         return [p for p in itertools.permutations(range(n)) if p != ident]
     out = [ident[::-1], ident[1:] + ident[:1]]
     if tier == "thorough":
-        out.append(ident[-1:] + ident[:-1])
-        out.append((ident[1], ident[0]) + ident[2:])
-    return out
+        # all rotations and all adjacent transpositions
+        for k in range(2, n):
+            out.append(ident[k:] + ident[:k])
+        for k in range(n - 1):
+            p = list(ident)
+            p[k], p[k + 1] = p[k + 1], p[k]
+            out.append(tuple(p))
+    seen = []
+    for p in out:
+        if p != ident and p not in seen:
+            seen.append(p)
+    return seen
 
 
 def obj_tensors(obj, out=None):
@@ -620,6 +629,9 @@ def _build(ent, rname, variant):
     at = [t for t in at if id(t) not in {id(u) for u in xt}]
     if variant is not None and variant[0] == "aperm":
         permute_tensor(at[variant[1]], variant[2])
+    if variant is not None and variant[0] == "permx":
+        permute_tensor(xt[variant[1]], variant[2])
+        permute_tensor(at[variant[3]], variant[4])
     if variant is not None and variant[0] == "rev":
         for t in at:
             if t.ndim > 1:
@@ -856,23 +868,28 @@ def evaluate(ent, rname, tier):
         if any(r > 1 for r in base["n_xt"] + base["n_at"]):
             variants.append(("rev",))
         if tier == "thorough" and len(base["n_xt"]) >= 2:
-            # two tensors of the receiver permuted at once: all pairs, all
-            # permutation pairs up to three tensors / a generating family above
+            # two tensors of the receiver permuted at once: all pairs of
+            # tensors x all pairs of single-tensor permutations of the quick
+            # tier (all permutations up to rank 3, generating family above)
             nx = len(base["n_xt"])
-            small = nx <= 3
             for i in range(nx):
                 for j in range(i + 1, nx):
-                    pi = perms_for(base["n_xt"][i], "quick") if small else perms_small(base["n_xt"][i])
-                    pj = perms_for(base["n_xt"][j], "quick") if small else perms_small(base["n_xt"][j])
-                    for a in pi:
-                        for b in pj:
+                    for a in perms_for(base["n_xt"][i], "quick"):
+                        for b in perms_for(base["n_xt"][j], "quick"):
                             variants.append(("perm2", i, a, j, b))
+        if tier == "thorough" and base["n_at"]:
+            # one receiver tensor and one argument tensor permuted at once
+            for i, ri in enumerate(base["n_xt"]):
+                for j, rj in enumerate(base["n_at"]):
+                    for a in perms_for(ri, "quick"):
+                        for b in perms_for(rj, "quick"):
+                            variants.append(("permx", i, a, j, b))
     if "noorder" not in flags and not isinstance(x, qtn.Tensor):
         for o in orders_for(base["nt"], tier):
             variants.append(("order", o))
     seen_bad = set()
     for v in variants:
-        kind = "axis-order" if v[0] in ("perm", "perm2", "aperm", "rev") else "insertion-order"
+        kind = "axis-order" if v[0] in ("perm", "perm2", "permx", "aperm", "rev") else "insertion-order"
         if kind in seen_bad:
             continue
         r = run_plain(ent, rname, v, readonly=False)
@@ -1042,8 +1059,8 @@ def run(ctx):
         "cells": len(cells),
         "receivers": sorted({c["r"] for c in cells}),
         "axis_permutations": "all for rank<=3%s; reversal+rotation+adjacent swaps above; one tensor at a time + all reversed%s"
-        % (" and 4" if tier == "thorough" else "", "; + every pair of receiver tensors permuted at once (all permutation pairs for <=3 tensors, reversal/rotation pairs above)" if tier == "thorough" else ""),
-        "insertion_orders": "all for n<=3%s; reversal+rotation above" % (" and 4" if tier == "thorough" else ""),
+        % (" and 4" if tier == "thorough" else "", "; + every pair of receiver tensors, and every (receiver tensor, argument tensor) pair, permuted at once with every pair of those permutations" if tier == "thorough" else ""),
+        "insertion_orders": "all for n<=3%s; %s above" % (" and 4" if tier == "thorough" else "", "reversal, all rotations, all adjacent swaps" if tier == "thorough" else "reversal+rotation"),
     }
     ctx.notes["discovered_pairs"] = cov["n_pairs"]
     ctx.notes["covered_pairs"] = cov["n_covered"]
